@@ -74,6 +74,13 @@ func evalOracles(sc *Scenario, all []obs, rec *Rec) {
 	lastNew := sc.CntOut
 	stopIssued := false
 	selfLogout := false
+	ownLogoutAt := -1 // index of the local Logout/Stop whose answer is outstanding
+	// the last sequence number received, computed from the inbound history alone (not read from the
+	// counter store): the all-types hook records the number of every inbound message outside the two
+	// logon-waiting states (a SequenceReset excepted when the session knows the type), an accepted
+	// Logon records its own
+	expIn := sc.CntIn
+	expInDiverged := false
 	anyRefusal := len(sc.FailSaves) > 0
 	for _, o := range append(append([]Op{}, sc.Pre...), sc.Ops...) {
 		if (o.Kind == "REGOUT" || o.Kind == "REGIN") && !o.Flag {
@@ -368,7 +375,18 @@ func evalOracles(sc *Scenario, all []obs, rec *Rec) {
 					if !isLogged || nA != 1 || nOther != 0 {
 						setFail(rec, "C06", fmt.Sprintf("op %d: acceptable Logon not answered by exactly one Logon (logged=%v, types=%v)", i, isLogged, types))
 					}
-					// C10: gap detection
+					// C10: gap detection, against the history as well as against the counter
+					if op.Seq > expIn+1 && expIn != before.CntIn && !anyRefusal {
+						req := false
+						for _, t := range types {
+							if t == "2" {
+								req = true
+							}
+						}
+						if !req {
+							setFail(rec, "C10", fmt.Sprintf("op %d: Logon %d after %d (the last number received; the counter store says %d) did not trigger a ResendRequest", i, op.Seq, expIn, before.CntIn))
+						}
+					}
 					if op.Seq > before.CntIn+1 {
 						found := false
 						for k, t := range types {
@@ -509,7 +527,13 @@ func evalOracles(sc *Scenario, all []obs, rec *Rec) {
 				}
 			}
 			// C15
+			if lbl == "logout" && ownLogoutAt >= 0 && before.State == 1 && !anyRefusal && !evRefusal {
+				// keyed on the history, not on what the session believes: its own Logout is out and
+				// unanswered, nothing since then logs a session on again, so this is the answer
+				setFail(rec, "C15", fmt.Sprintf("op %d: the session sent its own Logout at op %d and no answer had arrived, yet it reports itself logged on and treats the peer's Logout as a new request (sent %v)", i, ownLogoutAt, types))
+			}
 			if lbl == "logout" {
+				ownLogoutAt = -1
 				switch before.State {
 				case 1:
 					if len(types) != 1 || types[0] != "5" {
@@ -546,7 +570,26 @@ func evalOracles(sc *Scenario, all []obs, rec *Rec) {
 			if op.Kind == "STOP" {
 				stopIssued = true
 			}
+			if before.State == 1 && o.State == 3 && len(types) == 1 && types[0] == "5" {
+				ownLogoutAt = i
+			}
 			selfLogout = true
+		}
+		if op.Kind == "IN" {
+			if _, okT := fget(tokenize(op.Data), "35"); okT && op.Seq >= 0 && before.State != 0 && before.State != 2 {
+				if mt, _ := fget(tokenize(op.Data), "35"); !(sc.SeqReset && mt == "4") {
+					expIn = op.Seq
+				}
+			}
+			if strings.HasPrefix(op.Label, "logon-") && !wasLogged && isLogged && op.Seq >= 0 {
+				expIn = op.Seq
+			}
+			if expIn != o.CntIn {
+				expInDiverged = true
+			}
+		}
+		if o.State != 1 && o.State != 3 { // the wait for the answer is over (deadline, disconnect, ...)
+			ownLogoutAt = -1
 		}
 		if isLogged {
 			everLogged = true
@@ -556,4 +599,7 @@ func evalOracles(sc *Scenario, all []obs, rec *Rec) {
 		}
 	}
 	_ = selfLogout
+	if expInDiverged {
+		rec.Tags = append(rec.Tags, "history-counter-differs-from-store")
+	}
 }
